@@ -1,0 +1,18 @@
+//go:build verif
+
+package v0
+
+import "time"
+
+// verifIdleRequesters: under the build tag "verif" the requester-spawning loop sleeps
+// requestIntervalMS when there is nothing to request instead of spinning, because a
+// goroutine that never blocks freezes a testing/synctest bubble (quiescence is never
+// reached and the fake clock never advances). The sleep happens outside pool.mtx.
+func verifIdleRequesters(pool *BlockPool) {
+	pool.mtx.Lock()
+	idle := pool.height+pool.requestersLen() > pool.maxPeerHeight
+	pool.mtx.Unlock()
+	if idle {
+		time.Sleep(requestIntervalMS * time.Millisecond)
+	}
+}
